@@ -47,6 +47,12 @@ class NCGroup(Node):
         self.items = items
 
 
+class Alt(Node):
+    """a|b inside a group"""
+    def __init__(self, branches):
+        self.branches = branches
+
+
 class Absent(Node):
     """an optional part taken as absent in one expansion: its k capture groups are None"""
     def __init__(self, k):
@@ -106,14 +112,22 @@ def parse(pat):
             nl = z3.Re(z3.StringVal("\n"))
             return Lit(z3.Intersect(ANYCHAR, z3.Complement(nl)))
         if c in "|":
-            raise OutOfReach("regex alternation")
+            raise OutOfReach("regex alternation in an unexpected position")
         pos += 1
         return Lit(z3.Re(z3.StringVal(c)))
 
     def seq(stop):
         nonlocal pos
         items = []
+        branches = []
         while pos < n and pat[pos] != stop:
+            if pat[pos] == "|":
+                if stop == "\0":
+                    raise OutOfReach("top-level alternation must be split by the caller")
+                branches.append(items)
+                items = []
+                pos += 1
+                continue
             if pat[pos] == "$" and pos == n - 1 and stop == "\0":
                 break
             if pat[pos:] == "\\Z" and stop == "\0":
@@ -140,6 +154,9 @@ def parse(pat):
                     else:
                         a = Rep(a, int(body), int(body))
             items.append(a)
+        if branches:
+            branches.append(items)
+            return [Alt(branches)]
         return items
     if pat.startswith("^"):
         pos = 1
@@ -157,6 +174,8 @@ def to_re(node):
         return seq_re(node.items)
     if isinstance(node, Absent):
         return z3.Re(z3.StringVal(""))
+    if isinstance(node, Alt):
+        return z3.Union(*[seq_re(b) for b in node.branches]) if len(node.branches) > 1 else seq_re(node.branches[0])
     if isinstance(node, Rep):
         r = to_re(node.item)
         if node.hi is None:
@@ -182,6 +201,9 @@ def seq_re(items):
 
 def language(pat):
     """z3 regex of the strings s for which re.match(pat, s) succeeds."""
+    alts = top_alternatives(pat)
+    if len(alts) > 1:
+        return z3.Union(*[language(a) for a in alts])
     items, anchored = parse(pat)
     core = seq_re(items)
     if anchored == "Z":
@@ -205,9 +227,39 @@ def count_groups(items):
             n += count_groups(x.items)
         elif isinstance(x, Absent):
             n += x.k
+        elif isinstance(x, Alt):
+            n += sum(count_groups(b) for b in x.branches)
         elif isinstance(x, Rep):
             n += count_groups([x.item])
     return n
+
+
+def top_alternatives(pat):
+    """split a pattern at its top-level `|` (anchors bind tighter than alternation: `^a|b$` is `(^a)|(b$)`)"""
+    out, depth, cls, i, cur = [], 0, False, 0, ""
+    while i < len(pat):
+        c = pat[i]
+        if c == "\\" and i + 1 < len(pat):
+            cur += pat[i:i + 2]
+            i += 2
+            continue
+        if cls:
+            cls = c != "]"
+        elif c == "[":
+            cls = True
+        elif c == "(":
+            depth += 1
+        elif c == ")":
+            depth -= 1
+        elif c == "|" and depth == 0:
+            out.append(cur)
+            cur = ""
+            i += 1
+            continue
+        cur += c
+        i += 1
+    out.append(cur)
+    return out
 
 
 def expansions(items):
@@ -227,7 +279,7 @@ def expansions(items):
             if subs is None:
                 return None
             outs = [o + [Absent(count_groups([x.item]))] for o in outs] + [o + sub for o in outs for sub in subs]
-        elif isinstance(x, Group) and count_groups(x.items):
+        elif isinstance(x, (Group, Alt)) and count_groups([x] if isinstance(x, Alt) else x.items):
             return None
         else:
             outs = [o + [x] for o in outs]
@@ -263,7 +315,13 @@ def regex_empty(r):
 def match_symbolic(I, pat, s):
     """re.match(pat, <symbolic str s>): forks on membership; returns None or the
     list of group values (top-level groups only)."""
-    items, anchored = parse(pat)
+    alts = top_alternatives(pat)
+    if len(alts) > 1:
+        if any(count_groups(parse(a)[0]) for a in alts):
+            raise OutOfReach("top-level alternation with capture groups")
+        items, anchored = [], False
+    else:
+        items, anchored = parse(pat)
     lang = language(pat)
     P = I.prover
     subj = subject_language(I, s)
